@@ -1181,6 +1181,7 @@ package vanguard
 // published HTTP->RPC mapping assigns; a response that carries grpc-status in its headers
 // (trailers-only) ends the RPC right there.
 //@ func grpcExtractResponseMeta
+//@   atcall[C05] httpExtractTrailers#2: respMeta.end != nil && respMeta.end.trailers == nil
 //@   requires headers != nil
 //@   ensures[C04] statusCode != 200 ==> result.end != nil && result.end.err != nil
 //@   ensures[C04] statusCode != 200 && old(hdrCount(headers, "Grpc-Status")) == 0 ==> code(result.end.err) == http2rpc(statusCode)
@@ -1223,3 +1224,10 @@ package vanguard
 //@   track splits = bytes.Split
 //@   track cuts = bytes.Cut
 //@   ensures[C04] splits == 1
+
+// C05: whatever trailers the backend's HTTP response carries become the trailers of the RPC end.
+//@ func (restServerProtocol).extractEndFromTrailers
+//@   ensures[C05] err == nil && r0.trailers == trailers && r0.err == nil
+//@   modifies
+//@ func (grpcServerProtocol).extractEndFromTrailers
+//@   ensures[C05] err == nil && r0.trailers == trailers
